@@ -708,6 +708,12 @@ PPL::MIP_Problem::process_pending_constraints() {
       unfeasible_tableau_rows.push_back(unfeasible_row);
     }
   }
+  if (!unfeasible_tableau_rows.empty()) {
+    // The tableau no longer sits on `last_generator': that point cannot
+    // vouch for the pending inequalities it was found to satisfy.
+    std::fill(is_satisfied_inequality.begin(),
+              is_satisfied_inequality.end(), false);
+  }
 
   const dimension_type old_tableau_num_rows = tableau.num_rows();
   const dimension_type old_tableau_num_cols = tableau.num_columns();
